@@ -2,16 +2,16 @@
     toolchain's math/big/intconv.go — do not edit.  What the sources no longer spell in the expected form is `none` / `[]`. -/
 namespace C02Facts
 
-def signBit : Option Nat := none
+def signBit : Option Nat := some 9223372036854775808
 def MaxUint128 : Option (Nat × Nat) := some (18446744073709551615, 18446744073709551615)
-def MaxInt128 : Option (Nat × Nat) := none
-def MinInt128 : Option (Nat × Nat) := none
-def minInt128AsAbsUint128 : Option (Nat × Nat) := none
-def maxInt128AsUint128 : Option (Nat × Nat) := none
-def maxBigUint128 : Option Nat := none
-def maxRepresentableUint128Float : Option Int := none
-def minInt128Float : Option Int := none
-def maxInt128Float : Option Int := none
+def MaxInt128 : Option (Nat × Nat) := some (9223372036854775807, 18446744073709551615)
+def MinInt128 : Option (Nat × Nat) := some (9223372036854775808, 0)
+def minInt128AsAbsUint128 : Option (Nat × Nat) := some (9223372036854775808, 0)
+def maxInt128AsUint128 : Option (Nat × Nat) := some (9223372036854775807, 18446744073709551615)
+def maxBigUint128 : Option Nat := some 340282366920938463463374607431768211455
+def maxRepresentableUint128Float : Option Int := some (340282366920938463463374607431768211455)
+def minInt128Float : Option Int := some (-170141183460469231731687303715884105728)
+def maxInt128Float : Option Int := some (170141183460469231731687303715884105727)
 def scanVerbs : List (Char × List Char × List Char) := [('b', ['0', 'b'], ['b', 'B']), ('o', ['0', 'o'], ['o', 'O']), ('O', ['0', 'o'], ['o', 'O']), ('d', [], ['b', 'B', 'o', 'O', 'x', 'X']), ('x', ['0', 'x'], ['x', 'X']), ('X', ['0', 'x'], ['x', 'X'])]
 def fmtBases : List (Char × Nat) := [('b', 2), ('o', 8), ('O', 8), ('d', 10), ('s', 10), ('v', 10), ('x', 16), ('X', 16)]
 def fmtSharp : List (Char × List Char) := [('b', ['0', 'b']), ('o', ['0']), ('x', ['0', 'x']), ('X', ['0', 'X'])]
